@@ -56,10 +56,14 @@ def check_score(ctx, case):
     n = len(cands)
     if which == "vector":
         vec = [canon.pf(v) for v in case["vector"]]
-        given = list(vec)
+        # the vector is any sequence: one call in three hands over a tuple instead of a list
+        as_tuple = int(canon.jhash([case["vector"], spec["cands"]])[:2], 16) % 3 == 0
+        given = tuple(vec) if as_tuple else list(vec)
+        if as_tuple:
+            ctx.count("tuple_vectors")
         out = observe(U.score_profile_from_rankings, prof, given)
         ctx.count("input_vector_unchanged_checks")
-        if given != vec or len(given) != len(vec):
+        if list(given) != vec or len(given) != len(vec):
             ctx.fail("score_profile_from_rankings changed the score vector it was given (a caller reusing the list gets different "
                      "scores on the next call)", case, {"before": [canon.fs(v) for v in vec], "after": [canon.fs(v) for v in given]})
             return
@@ -253,6 +257,13 @@ def check_election(ctx, case, max_runs):
         flat = [max(v) for v in vals]
         if any(flat[i] < flat[i + 1] for i in range(len(flat) - 1)):
             ctx.fail(f"{cfg['rule']}: final ranking is not in descending score order", c2, {"ranking": canon.groups(rk)})
+            continue
+        # ... and only candidates of EQUAL score share a group (losers of different scores lumped together hide their order)
+        mixed = [sorted(g) for g, v in zip(rk, vals) if len(set(v)) > 1]
+        ctx.count("ranking_groups_checked_uniform", len(rk))
+        if mixed:
+            ctx.fail(f"{cfg['rule']}: candidates with different scores are reported as tied", c2,
+                     {"group": mixed[0], "ranking": canon.groups(rk), "scores": canon.scores_c(sc)})
 
 
 def run(ctx):
